@@ -1,0 +1,55 @@
+//go:build verif
+
+// Executable contracts (bounded stand-ins) for package configuration. Compiled only with
+// -tags verif.
+package configuration
+
+import (
+	"os"
+	"path/filepath"
+	"strings"
+)
+
+// BoundedConfiguration (C04): what a toolchain.yaml written with the documented keys
+// (patterns / anti_evasion, anti_evasion_suffix, anti_evasion_no_space_suffix / unix, windows)
+// defines is what New returns, field by field and with surrounding white space removed; a file
+// that is absent, and one that does not decode, both give six empty patterns.
+//@ directive[C04] bounded BoundedConfiguration quick=3 thorough=4 tokens="a" " " "'" "\\" "[\\s\"]" "#" ": "
+
+func BoundedConfiguration(in string) string {
+	dir, err := os.MkdirTemp("", "zzconf")
+	if err != nil {
+		return "cannot create a scratch directory: " + err.Error()
+	}
+	defer os.RemoveAll(dir)
+	q := func(v string) string { return "'" + strings.ReplaceAll(v, "'", "''") + "'" }
+	want := [6]string{"1" + in, "2" + in, in + "3", in + "4", "5" + in + "5", in}
+	text := "patterns:\n" +
+		"  anti_evasion:\n    unix: " + q(want[0]) + "\n    windows: " + q(want[1]) + "\n" +
+		"  anti_evasion_suffix:\n    unix: " + q(want[2]) + "\n    windows: " + q(want[3]) + "\n" +
+		"  anti_evasion_no_space_suffix:\n    unix: " + q(want[4]) + "\n    windows: " + q(want[5]) + "\n"
+	if err := os.WriteFile(filepath.Join(dir, "toolchain.yaml"), []byte(text), 0o644); err != nil {
+		return "cannot write the configuration file: " + err.Error()
+	}
+	c := New(dir, "toolchain.yaml")
+	got := [6]string{c.Patterns.AntiEvasion.Unix, c.Patterns.AntiEvasion.Windows, c.Patterns.AntiEvasionSuffix.Unix,
+		c.Patterns.AntiEvasionSuffix.Windows, c.Patterns.AntiEvasionNoSpaceSuffix.Unix, c.Patterns.AntiEvasionNoSpaceSuffix.Windows}
+	for i := range want {
+		if got[i] != strings.TrimSpace(want[i]) {
+			return "pattern " + string(rune('1'+i)) + " read back as \"" + got[i] + "\", the file defines \"" + want[i] + "\""
+		}
+	}
+	for _, name := range []string{"absent.yaml", "broken.yaml"} {
+		if name == "broken.yaml" {
+			if err := os.WriteFile(filepath.Join(dir, name), []byte("patterns:\n  anti_evasion:\n    unix: "+q(in)+"\n  anti_evasion_suffix: [\n"), 0o644); err != nil {
+				return "cannot write the configuration file: " + err.Error()
+			}
+		}
+		e := New(dir, name)
+		if !SpecAllEmpty(e.Patterns.AntiEvasion.Unix, e.Patterns.AntiEvasion.Windows, e.Patterns.AntiEvasionSuffix.Unix,
+			e.Patterns.AntiEvasionSuffix.Windows, e.Patterns.AntiEvasionNoSpaceSuffix.Unix, e.Patterns.AntiEvasionNoSpaceSuffix.Windows) {
+			return name + ": a configuration that cannot be read is not empty"
+		}
+	}
+	return ""
+}
